@@ -352,6 +352,22 @@ class Prover:
             x, y = b.args[0].args[2]
             if a is x or a is y:
                 return True
+        # an item yielded by `for i in lo..hi` is below hi (Range::next never changes the end of the range)
+        if a.op == "payload" and a.args[1] == "Some":
+            c_ = self.an.call_site_of(a)
+            if c_ is not None and c_.declared_norm == "iter::Iterator::next" and (c_.callee.get("generics") or [""])[0].startswith("std::ops::Range<"):
+                it = c_.arg_values()[0]
+                it = it.args[0] if it.op == "refval" else it
+                cands = [it]
+                if it.op == "phi" and it in self.an.phi_ops:
+                    blk = it.args[0][1]
+                    body = self.an.loops.get(blk, set())
+                    cands = [v for p_, v in self.an.phi_ops[it].items() if p_ not in body]
+                for v in cands:
+                    if v.op == "call" and v.args[0].endswith("into_iter") and v.args[2]:
+                        v = v.args[2][0]
+                    if v.op == "agg" and v.args[1] == "ops::Range" and len(v.args[4]) == 2 and (v.args[4][1] is b or self.le(v.args[4][1], b, facts)):
+                        return True
         # position of the first match in a slice is an index into it
         if a.op == "payload" and a.args[1] == "Some" and a.args[0].op == "call" and a.args[0].args[0] in ("slice::position", "slice::rposition"):
             s = a.args[0].args[2][0]
